@@ -81,6 +81,9 @@ EAttr(a, n) == [e |-> "attr", a |-> a, n |-> n]
 ERest == [e |-> "rest"]
 EIPos == [e |-> "ipos"]                     \* keyword `innermost-pkt-pos` of a callable: where the innermost packet starts
 ERoot(n) == [e |-> "root", n |-> n]        \* field n of the packet that started the operation (keyword `root` of a callable)
+\* len(<a>.pack()) inside a callable: the callable itself serialises a (nested) packet, possibly WHILE the enclosing
+\* packet is being serialised (pack() must be re-entrant)
+EPackLen(a) == [e |-> "packlen", a |-> a]
 EChoose(key, alts) == [e |-> "choose", key |-> key, alts |-> alts]
 
 \* ---- the Describe step: the list the pack/unpack loops iterate
